@@ -43,11 +43,34 @@ def run(case):
     diff = traj.filter('Li')
     cases.prelude(diff, case.get('prelude'))
     cases.prelude(traj, case.get('prelude'))
+    labs0 = list(case['sites']['labels'])
+    if isinstance(case['radius'], dict) and len(set(labs0)) > 1 and case.get('decoy'):
+        # an earlier analysis in the same process with the same radii but another assignment of the labels to the sites (and, in one
+        # variant, one site fewer); its site structure is released before the real one is built, so the new one may take its address
+        dl = labs0[1:] + labs0[:1] if case['decoy'] == 'rotated-labels' else labs0[::-1][: max(1, len(labs0) - 1)]
+        dc = dict(case, sites=dict(case['sites'], labels=dl, frac=case['sites']['frac'][: len(dl)], image_shift=(case['sites'].get('image_shift') or [[0, 0, 0]] * len(labs0))[: len(dl)]))
+        if set(dl) <= set(case['radius']):
+            ds = sitesys.sites(dc)
+            gcall(_calculate_atom_states, sites=ds, trajectory=diff, site_radius=dict(case['radius']), allow=(ValueError,))
+            del ds
     st_ = sitesys.sites(case)
     rad = case['radius'] if isinstance(case['radius'], dict) else {'': float(case['radius'])}
     rad0 = dict(rad)
     got = gcall(_calculate_atom_states, sites=st_, trajectory=diff, site_radius=rad)
     compare(got, want, 'outer-state-is-site-within-radius', case)
+    if isinstance(case['radius'], dict) and len(set(labs0)) > 1 and case.get('relabel'):
+        # the caller relabels the SAME site structure in place and analyses again: the radii follow the labels the sites carry now
+        nl = labs0[1:] + labs0[:1]
+        for site_, lab_ in zip(st_, nl):
+            site_.label = lab_
+        c2 = dict(case, sites=dict(case['sites'], labels=nl))
+        w2, _ = sitesys.expected_states(c2)
+        g2 = gcall(_calculate_atom_states, sites=st_, trajectory=diff, site_radius=rad)
+        compare(g2, w2, 'outer-state-is-site-within-radius (same site structure relabelled in place)', c2)
+        for site_, lab_ in zip(st_, labs0):
+            site_.label = lab_
+        g3 = gcall(_calculate_atom_states, sites=st_, trajectory=diff, site_radius=rad)
+        compare(g3, want, 'outer-state-is-site-within-radius (labels restored)', case)
     got_in = gcall(_calculate_atom_states, sites=st_, trajectory=diff, site_radius=rad, site_inner_fraction=f)
     compare(got_in, want_in, 'inner-state-is-site-within-inner-radius', case)
     # the caller's radius specification is an input: the same object is used again (e.g. when scanning the inner fraction)
@@ -143,6 +166,14 @@ def run_auto(case):
     if via_image:
         labels.append('assigned-through-periodic-image')
     return {'nontrivial': via_image, 'labels': labels}
+
+
+@st.composite
+def states_cases(draw, tier):
+    c = draw(gen.hop_systems(tier=tier, max_frames=10 if tier == 'quick' else 24, max_diff=3 if tier == 'quick' else 5, labels=('A', 'A1', 'B', 'A10')))
+    c['decoy'] = draw(st.sampled_from([None, None, 'rotated-labels', 'fewer-sites']))
+    c['relabel'] = draw(st.sampled_from([False, False, True]))
+    return c
 
 
 @st.composite
@@ -248,7 +279,7 @@ def run_enum(case):
 
 
 SUBS = [
-    Sub(name='states', kind='hyp', run=run, strategy=lambda tier: gen.hop_systems(tier=tier, max_frames=10 if tier == 'quick' else 24, max_diff=3 if tier == 'quick' else 5, labels=('A', 'A1', 'B', 'A10')),
+    Sub(name='states', kind='hyp', run=run, strategy=lambda tier: states_cases(tier),
         rule='all lattice families x 3 orientations; 1-6 labelled sites (corner/face positions over-represented); radius float or per-label dict; inner fraction in (0,1]; atoms placed deep inside / at the inner edge / in the shell / at the outer edge / just outside / interstitial along 26 directions',
         n={'quick': 150, 'thorough': 2500}, shards={'quick': 12, 'thorough': 16}),
     Sub(name='automatic-radius', kind='hyp', run=run_auto, strategy=auto_cases,
